@@ -6,7 +6,7 @@ use crate::e1::Vector;
 use crate::expect::Expectation;
 use crate::report::Report;
 use crate::tape::{fnv_str, sample_tapes, Tape};
-use crate::world::exec::{abstract_tags, corruptions, payload, Executor, Expect};
+use crate::world::exec::{abstract_tags, corruptions_capped, payload, Executor, Expect};
 use serde_json::{json, Value};
 
 pub fn build_item(tape: &[u8], cfg: &CaseCfg, n_payloads: usize, max_corr: usize, stats: &mut GenStats) -> Option<Item> {
@@ -36,13 +36,9 @@ pub fn build_item(tape: &[u8], cfg: &CaseCfg, n_payloads: usize, max_corr: usize
             expects.push(if tags.is_empty() { Expectation::Any } else { Expectation::KnownTags { tags } });
             labels.push(format!("base#{} op={}", k, u.op_name));
             depends.push(None);
-            let mut cs = corruptions(&p, base.case.opts.other_variant, &base.world.schema);
-            // small payloads: exhaustive; large: sampled by the tape
+            // small payloads: exhaustive; large: sampled by the tape (only the kept ones are materialised)
             let mut st = Tape::new(&sub[256..]);
-            while cs.len() > max_corr {
-                let i = st.below(cs.len());
-                cs.swap_remove(i);
-            }
+            let cs = corruptions_capped(&p, base.case.opts.other_variant, &base.world.schema, max_corr, &mut st);
             for c in cs {
                 let deep = c.depth >= 2 || c.in_variant_or_list;
                 let h = fnv_str(&[&base.case.schema_text, &base.case.document, &c.payload.to_string()]);
